@@ -5,7 +5,7 @@
 # Output: /verif/out/selftest/results.tsv  (ID, patch, CAUGHT|MISSED|NOAPPLY|INCONCLUSIVE(rc), signature)
 set -u
 N="$1"; LIST="$(readlink -f "$2")"
-mkdir -p /verif/out/selftest; RES=/verif/out/selftest/results.tsv; : > "$RES.lock"
+mkdir -p /verif/out/selftest; RES=${ST_RES:-/verif/out/selftest/results.tsv}; : > "$RES.lock"
 worker() {
   i="$1"; W="/tmp/${ST_PREFIX:-st}-$i"
   rm -rf "$W/verif"; mkdir -p "$W"
